@@ -40,7 +40,7 @@ def design(ctx, thorough):
 
 def sig_features(g):
     f = kc.features(g["k"])
-    core = [x for x in ("atomic", "shared", "exclusive", "tile", "nested-outer", "sibling-outer", "runtime-bounds", "max_inner_dims",
+    core = [x for x in ("header-stride", "loop-header", "empty-range", "atomic-alias", "atomic", "shared", "exclusive", "tile", "nested-outer", "sibling-outer", "runtime-bounds", "max_inner_dims",
                         "wrapped-inner", "nested-inner", "sibling-inner", "for", "if") if x in f]
     return ",".join(core[:4])
 
@@ -207,6 +207,7 @@ def run(ctx):
     kc.lap(ctx, t0, "design")
     num = int(os.environ.get("C21_NUM", 600 if thorough else 100))
     gen = kc.generate(ctx, "mc/OklKernel_gen.cfg", num)
+    gen += kc.generate_all(ctx, "mc/OklKernel_gen_headers.cfg" if thorough else "mc/OklKernel_gen_headers_quick.cfg")
     kc.lap(ctx, t0, "generated %d kernels" % len(gen))
     argvecs = kc.spec_argvecs()
     batches = kc.make_batches(gen, argvecs, per_batch=50, prefix="c21b")
